@@ -113,6 +113,8 @@ IMSC_CFGS = [
   ("clock", IMSCWriterConfiguration(time_format=TimeExpressionSyntaxEnum.clock_time)),
   ("frames", IMSCWriterConfiguration(time_format=TimeExpressionSyntaxEnum.frames, fps=Fraction(30000, 1001))),
   ("smpte", IMSCWriterConfiguration(time_format=TimeExpressionSyntaxEnum.clock_time_with_frames, fps=Fraction(25))),
+  # a frame rate below one frame per second ("fps": "<num>/<denom>" admits it): the rate rounds to zero
+  ("frames-slow", IMSCWriterConfiguration(time_format=TimeExpressionSyntaxEnum.frames, fps=Fraction(1, 3))),
 ]
 LCD_CFGS = [
   ("default", lambda: LCDDocFilterConfig()),
